@@ -9,7 +9,7 @@ RULE = ("TLC model-checks ContainerWriter (all operation histories up to MaxOps 
         " ClosedReadBack, HeaderOnce, MetaFrozen, OneMarker, NoTrace..., and prints every history of exactly N operations; each is"
         " replayed on the real Writer (append variants and codecs rotate) together with seeded random histories up to 30-40"
         " operations; Trace_ContainerWriter.tla replays every recorded history on the model and judges each step."
-        " Non-trivial = history contains a successful append; distinct = distinct (block size, operation list).")
+        " A part of the histories is replayed a second time with values that are zero bytes wide (schema null). Non-trivial = history contains a successful append; distinct = distinct (block size, operation list).")
 
 
 def run(prop, tier, seed, replay=None):
@@ -49,6 +49,22 @@ def run(prop, tier, seed, replay=None):
         if p.returncode != 0:
             raise vf.ToolError("avh_c03 gen failed: " + p.stderr[-400:])
         scns += [l for l in gen.read_text().splitlines() if l.strip()]
+    if not replay:
+        # the same histories with values that are ZERO bytes wide (schema "null", id "z"): "something is pending" must be
+        # decided by the value count, not by the byte length of the buffer
+        def zeroed(line):
+            j = json.loads(line)
+            def z(x):
+                if isinstance(x, list):
+                    return [z(y) for y in x]
+                return "z" if x in ("a", "b", "c") else x
+            j["ops"] = [[op[0]] + [z(a) for a in op[1:]] if op and op[0] in ("append", "extend", "extend-bad") else op for op in j["ops"]]
+            j["zero"] = True
+            return json.dumps(j)
+        zsrc = [l for l in scns if '"append"' in l or '"extend"' in l]
+        step = 5 if tier == "quick" else 2
+        scns += [zeroed(l) for l in zsrc[seed % step::step]]
+        rep.cov["zero_width_histories"] = len(zsrc[seed % step::step])
     scn_file = work / "scn.ndjson"
     scn_file.write_text("\n".join(scns) + "\n")
     ev_file = work / "events.ndjson"
